@@ -497,8 +497,28 @@ def r8_pickle(rep, ctx):
         if t0 is not None and any(x[0] == "param" and x[1] == 0 for x in walk(t0)) and t0[0] == "call" and t0[1] == ("name", "OrderedDict") \
                 and capt is not None and any(x[0] == "call" and x[1][0] == "attr" and x[1][2] == "pop" for x in alternatives(capt)):
             feed = True
+    _pickle_components(rep, ob, tname)
     rep.check(last and feed, "C07.R8", "%s:pops-one" % tname, "removes exactly the trailing element and rebuilds through ObtainQuantity(OrderedDict(items), None, caption)",
               "does not %s" % ("pop exactly one element from the end" if not last else "pass the remaining items and the popped caption to ObtainQuantity"), fn=ob)
+
+
+def _pickle_components(rep, ob, tname):
+    """Every return of the reconstruction function rebuilds through ObtainQuantity, and no component of
+    a pickled entry (category, unit, exponent) is dropped: a destructured name that is never read means
+    the result is the same for two states that differ in it (non-dependence)."""
+    for r in own_nodes(ob.node):
+        if isinstance(r, ast.Return):
+            v = r.value
+            ok = isinstance(v, ast.Call) and isinstance(v.func, ast.Name) and v.func.id == "ObtainQuantity"
+            rep.check(ok, "C07.R8", "%s:return:%s" % (tname, norm(ast.unparse(r))[:60]), "rebuilds through ObtainQuantity", "%s can return `%s`, not an interned quantity" % (tname, ast.unparse(v) if v else None), node=r, fn=ob)
+    state = ob.params[0]
+    for st in own_statements(ob.node):
+        if isinstance(st, ast.Assign) and any(isinstance(x, ast.Name) and x.id == state for x in ast.walk(st.value)) and isinstance(st.targets[0], (ast.Tuple, ast.List)):
+            bound = [x.id for x in ast.walk(st.targets[0]) if isinstance(x, ast.Name)]
+            for name in bound:
+                loads = [x for x in ast.walk(ob.node) if isinstance(x, ast.Name) and x.id == name and isinstance(x.ctx, ast.Load)]
+                rep.check(bool(loads), "C07.R8", "%s:component:%s" % (tname, name), "component `%s` of a pickled entry is used in the reconstruction" % name,
+                          "`%s` is taken out of a pickled entry by `%s` and never read: the reconstruction is the same whatever its value (an exponent or unit is lost in the round trip)" % (name, norm(ast.unparse(st))), node=st, fn=ob)
 
 
 def _mentions_caption(res, e):
